@@ -7,7 +7,7 @@
 (* with h(s1) = h(s2) => Residual(s1) = Residual(s2)": hmap remembers      *)
 (* which residual each hash value has been seen with.                      *)
 (***************************************************************************)
-EXTENDS Json, IOUtils
+EXTENDS Json, IOUtils, SequencesExt, Bignum
 Rec == ndJsonDeserialize(IOEnv.TRACE)
 NV == Rec[1].nmax
 Family == {} PickAsCoded == FALSE MaxDepth == 0
@@ -24,6 +24,26 @@ HashOK(c, e) == IF e.hash \in DOMAIN hmap THEN hmap[e.hash] = ResidualSet(c, e.m
 HashUpd(c, e) == IF e.hash \in DOMAIN hmap THEN hmap ELSE hmap @@ (e.hash :> ResidualSet(c, e.m))
 IsSetOK(e) == \A v \in 1 .. Len(e.m) : e.isset[v] = (e.m[v] # -1)
 
+(* L2 (MODEL-DRIFT only): the numeric residual hash as SATSolver computes it.  new() sorts every clause (negative literals  *)
+(* first, each group by variable), removes repeated literals and drops tautologies; the k-th literal occurrence of what is  *)
+(* left owns the k-th prime; the hash of a state is the product of the primes of the occurrences that are GONE from the      *)
+(* residual: every occurrence of a satisfied clause, the falsified occurrences of an unsatisfied one.                        *)
+FirstPrimes == <<2, 3, 5, 7, 11, 13, 17, 19, 23, 29, 31, 37, 41, 43, 47, 53, 59, 61, 67, 71, 73, 79, 83, 89, 97, 101, 103, 107, 109, 113,
+                 127, 131, 137, 139, 149, 151, 157, 163, 167, 173, 179, 181, 191, 193, 197, 199, 211, 223, 227, 229>>
+SortedLits(c) == LET S == LitSet(c)
+                     neg == SetToSortSeq({x \in S : x < 0}, LAMBDA a, b : a > b)      \* -1, -2, ...: ascending variable
+                     pos == SetToSortSeq({x \in S : x > 0}, LAMBDA a, b : a < b)
+                 IN neg \o pos
+NormCnf(c) == LET kept == SelectSeq(c, LAMBDA cl : ~Tautology(cl)) IN [i \in 1 .. Len(kept) |-> SortedLits(kept[i])]
+RECURSIVE OccBaseN(_, _)
+OccBaseN(nc, i) == IF i <= 1 THEN 0 ELSE Len(nc[i - 1]) + OccBaseN(nc, i - 1)
+GonePrimes(nc, m) ==
+  UNION {{FirstPrimes[OccBaseN(nc, i) + j] : j \in {k \in 1 .. Len(nc[i]) : ClauseSat(m, nc[i]) \/ LitVal(m, nc[i][k]) = "F"}} : i \in 1 .. Len(nc)}
+RECURSIVE ProdLimbs(_)
+ProdLimbs(S) == IF S = {} THEN <<1>> ELSE LET x == CHOOSE y \in S : TRUE IN LMul(<<x>>, ProdLimbs(S \ {x}))
+HashDrift(c, e) == LET nc == NormCnf(c) IN
+  OccBaseN(nc, Len(nc) + 1) <= Len(FirstPrimes) /\ e.hash # ProdLimbs(GonePrimes(nc, e.m))
+
 TStep ==
   /\ l <= Len(Rec)
   /\ l' = l + 1
@@ -35,7 +55,7 @@ TStep ==
                     THEN /\ GoodState(e.cnf, {}, e.m)                               \* L1
                          /\ SatFlagOK(e.cnf, e.m, e.sat) /\ IsSetOK(e)
                          /\ LET p == NewW(FALSE, e.cnf, e.nv) IN                     \* L2
-                              IF ~p.ok \/ p.m # e.m \/ p.wp # e.wp \/ p.wn # e.wn THEN PrintT(<<"DRIFT", l>>) ELSE TRUE
+                              IF ~p.ok \/ p.m # e.m \/ p.wp # e.wp \/ p.wn # e.wn \/ HashDrift(e.cnf, e) THEN PrintT(<<"DRIFT", l>>) ELSE TRUE
                          /\ stack' = <<Obs(e)>> /\ wp' = e.wp /\ wn' = e.wn
                          /\ last' = [op |-> "new", lit |-> 0]
                     ELSE /\ UnsatAllowed(e.cnf, {})                                  \* L1: None only if unsatisfiable
@@ -57,7 +77,7 @@ TStep ==
                             /\ {e.diff[i] : i \in 1 .. Len(e.diff)} = AssignedLits(e.m) \ AssignedLits(top.m)
                             /\ HashOK(cnf, e) /\ hmap' = HashUpd(cnf, e)
                             /\ stack' = Append(stack, Obs(e)) /\ decs' = Append(decs, e.lit)
-                  /\ IF p.ok # (e.res # "UNSAT") \/ (p.ok /\ p.m # e.m) \/ p.wp # e.wp \/ p.wn # e.wn
+                  /\ IF p.ok # (e.res # "UNSAT") \/ (p.ok /\ p.m # e.m) \/ p.wp # e.wp \/ p.wn # e.wn \/ (e.res # "UNSAT" /\ HashDrift(cnf, e))
                        THEN PrintT(<<"DRIFT", l>>) ELSE TRUE                         \* L2
                   /\ wp' = e.wp /\ wn' = e.wn
                   /\ last' = [op |-> e.res, lit |-> e.lit] /\ UNCHANGED cnf
